@@ -81,7 +81,9 @@ var c07Layouts = []string{"", "x\n", "\ny \n", "\x00decoy"}
 var c07Locs = []struct {
 	path string
 	line int
-}{{"", 0}, {"", 1}, {"", 7}, {"dir/t.html", 0}, {"dir/t.html", 1}, {"dir/t.html", 7}}
+}{{"", 0}, {"", 1}, {"", 7}, {"dir/t.html", 0}, {"dir/t.html", 1}, {"dir/t.html", 7},
+	// Path is the path the template was parsed WITH, spelled as it was given: not cleaned, not made absolute
+	{"./t.html", 1}, {"dir//t.html", 0}, {"a/../b.html", 7}, {"dir/", 1}, {"/abs/t.html", 1}, {" spaced name.html", 1}, {"ünï/日本.html", 1}, {`C:\site\t.html`, 1}, {".", 0}, {"../up.html", 1}}
 
 func c07Families(tier string) []explore.Family {
 	maxD := 2
